@@ -130,13 +130,16 @@ def triggers_of(src, library=False):
             t.add("for_target_bound_more_than_once")
     # y = x where x is re-assigned somewhere (single-assignment aliasing)
     multi = {k for k, v in assigned.items() if len(v) > 1}
+    declared_global = {nm for g in ast.walk(tree) if isinstance(g, ast.Global) for nm in g.names}
     for n in ast.walk(tree):
         if isinstance(n, ast.Assign) and isinstance(n.value, ast.Name) and len(n.targets) == 1 and isinstance(n.targets[0], ast.Name):
             if n.value.id in multi and n.targets[0].id not in multi:
                 t.add("alias_then_mutate_source")
         if isinstance(n, ast.Call) and isinstance(n.func, ast.Name) and n.func.id in funcs:
             for a in n.args:
-                if isinstance(a, ast.Name) and a.id in multi:
+                # the parameter of an inlined function shares the register of the bare variable passed in; that only
+                # shows when the variable changes while the callee runs, i.e. when some function declares it global
+                if isinstance(a, ast.Name) and a.id in multi and a.id in declared_global:
                     t.add("bare_variable_argument")
     # void function whose last statement is a call to a function that returns a value
     fdefs = {n.name: n for n in ast.walk(tree) if isinstance(n, ast.FunctionDef)}
